@@ -108,6 +108,39 @@ fn exercise(kind: &str, bytes: &[u8], reload: &Reload<'_>, stats: &mut Stats) ->
     Ok(())
 }
 
+/// decode / validate / metadata only (the exhaustive field sweeps)
+fn exercise_light(kind: &str, bytes: &[u8], stats: &mut Stats) -> Result<(), Violation> {
+    let narrowed = || json!({"raw_hex": hex(bytes), "reload_src": "PROGRAM Main\nEND_PROGRAM\n", "cycles_before": 0, "kind": kind});
+    crate::alloc_probe::reset_max();
+    let decoded = guard("BytecodeModule::decode", || BytecodeModule::decode(bytes)).map_err(|v| v.narrowed(narrowed()))?;
+    let peak = crate::alloc_probe::max_single();
+    if peak > alloc_bound(bytes.len()) {
+        return Err(Violation::new(
+            format!("alloc/oversized-request/decode/{kind}"),
+            format!("decoding a {}-byte container requested a single allocation of {peak} bytes (bound {})", bytes.len(), alloc_bound(bytes.len())),
+        )
+        .narrowed(narrowed()));
+    }
+    stats.inc(&format!("fault.{kind}"));
+    if let Ok(module) = decoded {
+        crate::alloc_probe::reset_max();
+        let valid = guard("BytecodeModule::validate", || module.validate()).map_err(|v| v.narrowed(narrowed()))?;
+        let _ = guard("BytecodeModule::metadata", || module.metadata()).map_err(|v| v.narrowed(narrowed()))?;
+        let peak = crate::alloc_probe::max_single();
+        if peak > alloc_bound(bytes.len()) {
+            return Err(Violation::new(
+                format!("alloc/oversized-request/validate/{kind}"),
+                format!("validate/metadata of a {}-byte container requested a single allocation of {peak} bytes", bytes.len()),
+            )
+            .narrowed(narrowed()));
+        }
+        if valid.is_ok() {
+            stats.inc("probe.damaged_container_validates");
+        }
+    }
+    Ok(())
+}
+
 impl Check for C11Check {
     fn id(&self) -> &'static str {
         "C11"
@@ -125,7 +158,7 @@ impl Check for C11Check {
         120
     }
     fn rule(&self) -> &'static str {
-        "case = container emitted by the real compiler for a ProgGen project (+ bulk units) and a second container of a sibling project; clean path: validate, decode(encode(m)) = m, encode(decode(b)) = b; then storage faults on the bytes: EVERY truncation (<= 6000 bytes, else 1500 seeded offsets), the listed 1-3 bit flips (half of them with an extra flip on the header's CRC flag), 0xFF blow-ups of 4-byte fields with the CRC flag cleared, zeroed ranges, torn mixes of the two containers at seeded offsets; each damaged container runs decode / validate / metadata under a counting allocator and, if it validates, is hot reloaded into a running world after k cycles followed by two more cycles; distinct non-trivial = distinct (container hash, fault kind) pairs"
+        "case = container emitted by the real compiler for a ProgGen project (+ bulk units) and a second container of a sibling project; clean path: validate, decode(encode(m)) = m, encode(decode(b)) = b; then storage faults on the bytes: EVERY truncation (<= 6000 bytes, else 1500 seeded offsets), EVERY 4-byte field inflated to 0x00FFFFFF and every aligned field set to 0/1/2 (CRC flag cleared; decode/validate/metadata only), the listed 1-3 bit flips (half of them with an extra flip on the header's CRC flag), 0xFF blow-ups of 4-byte fields with the CRC flag cleared, zeroed ranges, torn mixes of the two containers at seeded offsets; each damaged container runs decode / validate / metadata under a counting allocator and, if it validates, is hot reloaded into a running world after k cycles followed by two more cycles; distinct non-trivial = distinct (container hash, fault kind) pairs"
     }
     fn assumptions(&self) -> Vec<&'static str> {
         vec![
@@ -247,6 +280,18 @@ impl Check for C11Check {
         if let Err(e) = guard("metadata", || module.metadata())? {
             return Err(Violation::new("clean/emitted-container-has-no-metadata", format!("{e:?}")));
         }
+        // the encoder's own in-memory module must survive encode -> decode unchanged
+        match guard("build_bytecode_module", || trust_runtime::harness::CompileSession::from_source(src.clone()).build_bytecode_module())? {
+            Ok(m0) => match guard("encode", || m0.encode())? {
+                Ok(b0) => match guard("decode", || BytecodeModule::decode(&b0))? {
+                    Ok(m1) if m1 == m0 => {}
+                    Ok(_) => return Err(Violation::new("clean/decode-encode-not-identity/compiler-module", "decode(encode(m)) != m for the module the compiler built".to_string())),
+                    Err(e) => return Err(Violation::new("clean/emitted-container-does-not-decode", format!("{e:?}"))),
+                },
+                Err(e) => return Err(Violation::new("clean/compiler-module-does-not-encode", format!("{e:?}"))),
+            },
+            Err(_) => {}
+        }
         stats.inc("probe.clean_roundtrip");
         let reload = Reload { src: &src, cycles_before: case["cycles_before"].as_u64().unwrap_or(0) };
         // the undamaged container and the sibling's container, reloaded into this world
@@ -274,6 +319,38 @@ impl Check for C11Check {
         }
         let mut h = Fnv::new();
         h.u64(chash).str("truncate");
+        stats.nontrivial(h.finish());
+
+        // ---- every 4-byte field inflated (count / length / offset / index corruption), CRC flag cleared
+        let sweep: Vec<usize> = if n <= 6000 {
+            (12..n.saturating_sub(3)).collect()
+        } else {
+            let mut r = Rng::new(chash ^ 0x5eed);
+            let mut c: Vec<usize> = (0..1500).map(|_| 12 + r.below((n - 16) as u64) as usize).collect();
+            c.sort_unstable();
+            c.dedup();
+            c
+        };
+        for &o in &sweep {
+            let mut b = bytes.clone();
+            b[FLAGS_OFFSET] &= !1;
+            b[o..o + 4].copy_from_slice(&0x00ff_ffffu32.to_le_bytes());
+            exercise_light("field_inflated", &b, stats)?;
+        }
+        // small values at aligned fields: index / type-id confusion (self references, cycles)
+        for &o in sweep.iter().filter(|o| **o % 4 == 0) {
+            for val in [0u32, 1, 2] {
+                if bytes[o..o + 4] == val.to_le_bytes() {
+                    continue;
+                }
+                let mut b = bytes.clone();
+                b[FLAGS_OFFSET] &= !1;
+                b[o..o + 4].copy_from_slice(&val.to_le_bytes());
+                exercise_light("index_confused", &b, stats)?;
+            }
+        }
+        let mut h = Fnv::new();
+        h.u64(chash).str("field-sweep");
         stats.nontrivial(h.finish());
 
         // ---- listed faults
